@@ -21,6 +21,7 @@ type Sorts struct {
 	order    []string // declaration order of struct sorts
 	anonSeq  int
 	anonName map[string]string
+	constArr func(elemSort, zero string) string
 }
 
 type structSort struct {
@@ -187,17 +188,22 @@ func sortTag(sort string) string {
 	return sanitize(strings.NewReplacer("(", "", ")", "", " ", "_").Replace(sort))
 }
 
-// ElemArray: backing arrays of slices/arrays with element sort es.
-func (s *Sorts) ElemArray(es string) string { return "E_" + sortTag(es) }
+// Heap arrays are keyed by Go type (after resolving aliases): slices of different element types can
+// never share a backing array, maps of different types are different objects, so the partition is sound
+// and gives frame conditions per kind of memory.
+func typeKey(t types.Type) string { return shortTypeName(types.Unalias(t)) }
 
-// CellArray: pointer-to-non-struct cells with content sort cs.
-func (s *Sorts) CellArray(cs string) string { return "C_" + sortTag(cs) }
+// ElemArrayT: backing arrays of slices/arrays with element type t.
+func (s *Sorts) ElemArrayT(t types.Type) string { return "E_" + typeKey(t) }
 
-// Map arrays.
-func (s *Sorts) MapHas(ks, vs string) string { return "MH_" + sortTag(ks) + "__" + sortTag(vs) }
-func (s *Sorts) MapVal(ks, vs string) string { return "MV_" + sortTag(ks) + "__" + sortTag(vs) }
+// CellArrayT: pointer-to-non-struct cells (address-taken variables) with content type t.
+func (s *Sorts) CellArrayT(t types.Type) string { return "C_" + typeKey(t) }
 
-const MapLen = "ML"
+// Map arrays (presence, value, length) per map type.
+func mapKey(mt *types.Map) string             { return typeKey(mt.Key()) + "__" + typeKey(mt.Elem()) }
+func (s *Sorts) MapHasT(mt *types.Map) string { return "MH_" + mapKey(mt) }
+func (s *Sorts) MapValT(mt *types.Map) string { return "MV_" + mapKey(mt) }
+func (s *Sorts) MapLenT(mt *types.Map) string { return "ML_" + mapKey(mt) }
 
 // zero value term of a type
 func (s *Sorts) Zero(t types.Type) string {
@@ -221,6 +227,9 @@ func (s *Sorts) Zero(t types.Type) string {
 		}
 		return s.MkStruct(t, fs)
 	case *types.Array:
+		if s.constArr != nil {
+			return s.constArr(s.Of(u.Elem()), s.Zero(u.Elem()))
+		}
 		return fmt.Sprintf("((as const %s) %s)", s.Of(t), s.Zero(u.Elem()))
 	}
 	return "0"
